@@ -263,7 +263,7 @@ def rule_counter_discipline(ctx, rule):
                 ctx.ob(rule, "counter-write|%s" % g.id, "the worker counters are stepped by one, and only by the pool's own code", ok, g.loc(bb))
             else:
                 callers = facts.callers_of(g.id)
-                ok = P.drop is not None and bool(callers) and all(h.id == P.drop.id for h, b2, t2 in callers)
+                ok = P.drop is not None and bool(callers) and all(shared.private_to(facts, P.drop.id, h.id) for h, b2, t2 in callers)
                 ctx.ob(rule, "counter-write|%s" % g.id, "the worker counters are overwritten only by the pool's destructor", ok, g.loc(bb))
             continue
         if in_guard:
@@ -273,7 +273,7 @@ def rule_counter_discipline(ctx, rule):
             ok = g.file == P.file and op_const(t["args"][1]) == 1
             ctx.ob(rule, "counter-write|%s" % g.id, "the worker counters are stepped by one, and only by the pool's own code", ok, g.loc(bb))
         else:
-            ok = P.drop is not None and g.id == P.drop.id
+            ok = P.drop is not None and shared.private_to(facts, P.drop.id, g.id)
             ctx.ob(rule, "counter-write|%s" % g.id, "the worker counters are overwritten only by the pool's destructor", ok, g.loc(bb))
     # 2. pairing inside the worker (helpers spliced in)
     w = P.w
